@@ -604,7 +604,7 @@ def select__array_fold_left_right_functions(self: XPathFunction, context: ta.Con
     array_: XPathArray = self.get_argument(context, required=True, cls=XPathArray)
     zero = self.get_argument(context, index=1)
 
-    result = zero
+    result = zero if zero is not None else []
 
     if self.symbol == 'fold-left':
         for item in array_.items(context):
